@@ -132,6 +132,11 @@ class DateTime(datetime.datetime, Date):
         if tz is not None:
             tz = pendulum._safe_timezone(tz, dt=dt)
 
+        if dt.tzinfo is not None and tz is not None:
+            # Keep the instant: some tzinfo implementations (pytz) do not
+            # record which occurrence of a repeated time is meant in ``fold``.
+            dt = datetime.datetime.astimezone(dt, tz)
+
         return cls.create(
             dt.year,
             dt.month,
